@@ -129,8 +129,13 @@ class Bounds:
             if sh.endswith('::min') and len(e[2]) == 2 and upper:
                 bs = [self._b(a, True, depth + 1) for a in e[2]]
                 bs = [b for b in bs if b is not None]
-                # min(x, y) ≤ x and ≤ y: any provable bound will do; prefer the one in L
+                # min(x, y) ≤ x and ≤ y: any provable bound will do; prefer a constant one (it holds for every L)
+                bs.sort(key=lambda b: (b[0] != 0, b[1]))
                 return bs[0] if bs else None
+            if (sh.endswith('::saturating_mul') or sh.endswith('::wrapping_mul')) and len(e[2]) == 2 and sh.endswith('::saturating_mul'):
+                return self._b(('bin', 'Mul', e[2][0], e[2][1]), upper, depth + 1)
+            if sh.endswith('::saturating_add') and len(e[2]) == 2:
+                return self._b(('bin', 'Add', e[2][0], e[2][1]), upper, depth + 1)
             if sh.endswith('::saturating_sub') and len(e[2]) == 2:
                 if upper:
                     a = self._b(e[2][0], True, depth + 1)
